@@ -83,6 +83,26 @@ func TestVerifReplayJSONExpr(t *testing.T) {
 			}
 		}
 	}
+	// ... and on scalars, well-formed or not, in every nesting position: a malformed value anywhere
+	// makes the whole text unacceptable
+	scalars := []string{"true", "false", "null", "flase", "tru", "nul", "True", "12", "-0.5e-3", "01", "-", "1.", ".5", "1e", "1e+", "+1", "0x1", "NaN", "\"ok\"", "\"\\q\"", "\"\\u12\"", "\"a\tb\"", "\"unterminated", "", "{}", "[]", "[1,]", "{\"k\":}", "{\"k\" 1}"}
+	positions := []string{"%s", "{\"a\": %s}", "[%s]", "{\"a\": [%s]}", "[{\"deep\": {\"x\": %s}}]", "{\"a\": %s, \"b\": 1}", "{\"b\": 1, \"a\": %s}", "[1, %s]", "[%s, 1]", "{\"a\": {\"b\": {\"c\": [[%s]]}}}"}
+	for _, sc := range scalars {
+		for _, pos := range positions {
+			txt := fmt.Sprintf(pos, sc)
+			n++
+			_, d := ParseExpression([]byte(txt), "t.json")
+			if d.HasErrors() == stdjson.Valid([]byte(txt)) {
+				t.Errorf("REPLAY-FAIL func=json.ParseExpression input=%q accepted=%v but encoding/json.Valid=%v", txt, !d.HasErrors(), stdjson.Valid([]byte(txt)))
+			}
+			if len(txt) > 0 && txt[0] == '{' {
+				_, d := Parse([]byte(txt), "t.json")
+				if d.HasErrors() == stdjson.Valid([]byte(txt)) {
+					t.Errorf("REPLAY-FAIL func=json.Parse input=%q accepted=%v but encoding/json.Valid=%v", txt, !d.HasErrors(), stdjson.Valid([]byte(txt)))
+				}
+			}
+		}
+	}
 	// object keys computed from marked values: no panic, and the mark is on the object
 	for _, kv := range []cty.Value{cty.StringVal("x").Mark("secret"), cty.UnknownVal(cty.String).Mark("secret")} {
 		func() {
